@@ -144,8 +144,30 @@ func runLoc(ctx *engine.Ctx, lc locCase) {
 		cls = classOf(host)
 	}
 	got := info.CountryCode.String()
-	var want []string
-	consult := false
+	want, consult := wantFor(cls, lc)
+	ok := false
+	for _, w := range want {
+		if got == w {
+			ok = true
+		}
+	}
+	if !ok {
+		ctx.Fail("loc-table", "location-label{"+cls+","+lc.DB+"->"+got+"}", fmt.Sprintf("address %q (%s, db %s, via %s) got location %q, want one of %q", lc.Addr, cls, lc.DB, lc.Via, got, want), lc, nil)
+	}
+	if db != nil {
+		if !consult && len(db.calls) > 0 {
+			ctx.Fail("loc-table", "database-consulted{"+cls+"}", fmt.Sprintf("address %q (%s): the database was consulted (%v) although the class alone decides the label", lc.Addr, cls, db.calls), lc, nil)
+		}
+		if consult && len(db.calls) != 1 {
+			ctx.Fail("loc-table", "database-calls", fmt.Sprintf("address %q: %d database lookups", lc.Addr, len(db.calls)), lc, nil)
+		}
+	}
+	ctx.Record("loc-table", "E", fmt.Sprint(lc, got), true, 1, 1)
+}
+
+// wantFor: the location labels the statement allows for an address of class cls, and whether the
+// database is to be consulted for it.
+func wantFor(cls string, lc locCase) (want []string, consult bool) {
 	switch {
 	case cls == "unparsable" && lc.Via == "ip" && lc.DB == "disabled":
 		want = []string{"XA", ""} // a nil IP with lookup disabled: the statement's two first rules both apply
@@ -166,24 +188,97 @@ func runLoc(ctx *engine.Ctx, lc locCase) {
 	default:
 		want, consult = []string{"BR"}, true
 	}
-	ok := false
-	for _, w := range want {
-		if got == w {
-			ok = true
-		}
+	return want, consult
+}
+
+// runLocCollectors: the same table, observed where a user sees it: the address is the remote
+// address of a TCP connection / the client address of a UDP association fed to the real
+// collectors, and the location label of every gathered sample that has one must be the label of
+// the address's class.
+func runLocCollectors(ctx *engine.Ctx, lc locCase) {
+	vrt.SetPassNow(vrt.Epoch)
+	var db *recDB
+	var m ipinfo.IPInfoMap
+	if lc.DB != "disabled" {
+		db = &recDB{mode: lc.DB}
+		m = db
 	}
-	if !ok {
-		ctx.Fail("loc-table", "location-label{"+cls+","+lc.DB+"->"+got+"}", fmt.Sprintf("address %q (%s, db %s, via %s) got location %q, want one of %q", lc.Addr, cls, lc.DB, lc.Via, got, want), lc, nil)
-	}
-	if db != nil {
-		if !consult && len(db.calls) > 0 {
-			ctx.Fail("loc-table", "database-consulted{"+cls+"}", fmt.Sprintf("address %q (%s): the database was consulted (%v) although the class alone decides the label", lc.Addr, cls, db.calls), lc, nil)
+	var a net.Addr
+	switch lc.Kind {
+	case "str":
+		a = strAddr(lc.Addr)
+	case "tcp":
+		ta, err := net.ResolveTCPAddr("tcp", lc.Addr)
+		if err != nil {
+			panic(err)
 		}
-		if consult && len(db.calls) != 1 {
-			ctx.Fail("loc-table", "database-calls", fmt.Sprintf("address %q: %d database lookups", lc.Addr, len(db.calls)), lc, nil)
+		a = ta
+	case "udp":
+		ua, err := net.ResolveUDPAddr("udp", lc.Addr)
+		if err != nil {
+			panic(err)
 		}
+		a = ua
+	default:
+		return
 	}
-	ctx.Record("loc-table", "E", fmt.Sprint(lc, got), true, 1, 1)
+	cls := "unparsable"
+	if h, _, err := net.SplitHostPort(a.String()); err == nil {
+		cls = classOf(h)
+	}
+	want, consult := wantFor(cls, lc)
+	for _, proto := range []string{"tcp", "udp"} {
+		if db != nil {
+			db.calls = nil
+		}
+		smx, err := outline_prometheus.NewServiceMetrics(m)
+		if err != nil {
+			panic(err)
+		}
+		data := metrics.ProxyMetrics{ClientProxy: 10, ProxyTarget: 5, TargetProxy: 7, ProxyClient: 12}
+		if proto == "tcp" {
+			cm := smx.AddOpenTCPConnection(memConn{a})
+			cm.AddAuthenticated("key-1")
+			vrt.Advance(time.Second)
+			cm.AddClosed("OK", data, time.Second)
+		} else {
+			um := smx.AddUDPNatEntry(a, "key-1")
+			um.AddPacketFromClient("OK", 100, 60)
+			um.AddPacketFromTarget("OK", 80, 120)
+			vrt.Advance(2 * time.Second)
+			um.RemoveNatEntry()
+		}
+		samples, _, err := promx.Gather(smx)
+		if err != nil {
+			ctx.Fail("loc-collectors", "gather-error", err.Error(), lc, nil)
+			return
+		}
+		labelled := 0
+		for _, s := range samples {
+			got, has := s.Labels["location"]
+			if !has {
+				continue
+			}
+			labelled++
+			ok := false
+			for _, w := range want {
+				if got == w {
+					ok = true
+				}
+			}
+			if !ok {
+				ctx.Fail("loc-collectors", "metric-location-label{"+proto+","+cls+","+lc.DB+"->"+got+"}", fmt.Sprintf("client address %q (%s, db %s) of a %s flow: metric %s has location %q, want one of %q", lc.Addr, cls, lc.DB, proto, s.Name, got, want), lc, nil)
+				break
+			}
+		}
+		if labelled == 0 {
+			ctx.Fail("loc-collectors", "no-location-sample{"+proto+"}", fmt.Sprintf("client address %q: no gathered sample carries a location label after a %s flow", lc.Addr, proto), lc, nil)
+		}
+		if db != nil && !consult && len(db.calls) > 0 {
+			ctx.Fail("loc-collectors", "database-consulted{"+cls+"}", fmt.Sprintf("client address %q (%s) of a %s flow: the database was consulted (%v) although the class alone decides the label", lc.Addr, cls, proto, db.calls), lc, nil)
+		}
+		ctx.Record("loc-collectors", "E", fmt.Sprint(lc, proto, labelled), true, 1, 1)
+	}
 }
 
 func locCases() []locCase {
@@ -348,6 +443,12 @@ func init() {
 				}
 			}
 		}
+		for i, lc := range locCases() {
+			if lc.Via == "addr" && lc.Kind != "nil" && ctx.Mine(int64(i)) {
+				lc := lc
+				hk.Guard(ctx, "loc-collectors", lc, func() { runLocCollectors(ctx, lc) })
+			}
+		}
 		depth := 2
 		if ctx.Tier == "thorough" {
 			depth = 3
@@ -389,6 +490,10 @@ func init() {
 			var lc locCase
 			json.Unmarshal(rp.Input, &lc)
 			hk.Guard(sub, "loc-table", lc, func() { runLoc(sub, lc) })
+		} else if rp.Unit == "loc-collectors" {
+			var lc locCase
+			json.Unmarshal(rp.Input, &lc)
+			hk.Guard(sub, "loc-collectors", lc, func() { runLocCollectors(sub, lc) })
 		} else {
 			var ec expCase
 			json.Unmarshal(rp.Input, &ec)
